@@ -96,6 +96,9 @@ pub const C_Y: u8 = 1;
 pub const C_E: u8 = 2;
 pub const C_L: u8 = 3;
 pub const C_Z: u8 = 4;
+/// 150 KiB: larger than any plausible "large write" threshold (64 KiB, 128 KiB)
+pub const C_H: u8 = 5;
+pub const H_LEN: usize = 150 * 1024 + 3;
 pub const L_LEN: usize = 20 * 1024;
 
 /// Content number `c`: X="xx", Y="yyy", E="", L=20 KiB pattern (> every 8 KiB buffer), Z="zz".
@@ -107,17 +110,21 @@ pub fn content(c: u8) -> &'static [u8] {
         2 => b"",
         3 => L.get_or_init(|| (0..L_LEN).map(|i| ((i * 31 + 7) % 251) as u8).collect()),
         4 => b"zz",
+        5 => {
+            static H: OnceLock<Vec<u8>> = OnceLock::new();
+            H.get_or_init(|| (0..H_LEN).map(|i| ((i * 131 + 5) % 241) as u8).collect())
+        }
         _ => panic!("no content {c}"),
     }
 }
 
 pub fn content_name(c: u8) -> &'static str {
-    ["X", "Y", "E", "L", "Z"][c as usize]
+    ["X", "Y", "E", "L", "Z", "H"][c as usize]
 }
 
 /// Split `data` into write calls. 0: one call (none for empty data); 1: fine-grained
 /// (byte-wise for short data, straddling the 8 KiB buffer boundary for long data);
-/// 2: empty writes before, between and after two halves.
+/// 2: empty writes before, between and after two halves; 3: small head, bulk, small tail.
 pub fn chunks(data: &[u8], ch: u8) -> Vec<&[u8]> {
     match ch {
         0 => {
@@ -140,9 +147,18 @@ pub fn chunks(data: &[u8], ch: u8) -> Vec<&[u8]> {
                 v
             }
         }
-        _ => {
+        2 => {
             let (a, b) = data.split_at(data.len() / 2);
             vec![&data[..0], a, &data[..0], b, &data[..0]]
+        }
+        // 3: a small head, the bulk in one call, a small tail (small-then-large and large-then-small)
+        _ => {
+            if data.len() < 8 {
+                return data.chunks(1).collect();
+            }
+            let (h, rest) = data.split_at(3);
+            let (bulk, t) = rest.split_at(rest.len() - 2);
+            vec![h, bulk, t]
         }
     }
 }
